@@ -56,6 +56,7 @@ def main():
                 if m.state in (MessageType.POST_FAIL, MessageType.EXEC_ERR, MessageType.POST_ERR):
                     verdict = 'counterexample'
                     out['message'] = m.message
+                    out['engine_traceback'] = (getattr(m, 'traceback', '') or '')[-1500:]
                     mm = re.search(r'when calling (\w+)\((.*?)\)(?: \(which (?:returns|raises) .*\))?$',
                                    m.message, re.S)
                     if mm:
